@@ -31,6 +31,12 @@ HARNESSES = {
         functions=['NetcodeClient::{new,process_packet,generate_payload_packet,update,update_internal_state,generate_packet,disconnect}'],
         harnesses=[],
     ),
+    'U21': dict(
+        crate='renetcode', title='connection-table lookup helpers of renetcode/src/server.rs (BOUNDED: 4-slot tables)',
+        props=['C04', 'C10'],
+        functions=['find_client_by_id', 'find_client_mut_by_id', 'find_client_slot_by_id', 'find_client_mut_by_addr'],
+        harnesses=[],
+    ),
 }
 
 
